@@ -807,9 +807,13 @@ func (dr *diskRun) checkWriteFaults(measure *diskSim) {
 			continue
 		}
 		env.Hint = map[string]int{"only_fault": fi}
-		src := dr.cloneSource()
+		single := fi%2 == 1 // every other failing backup holds the only handle of its snapshot
+		src := dr.cloneSource(single)
 		if src == nil {
 			return
+		}
+		if single {
+			src.lr.snap = nil
 		}
 		dir := filepath.Join(env.TempDir(), "b")
 		ds := &diskSim{env: env, root: dir, fault: f}
@@ -849,6 +853,9 @@ func (dr *diskRun) checkWriteFaults(measure *diskSim) {
 			lr.discard(env)
 		} else {
 			env.Probe("store_error_reported")
+			if single && !dr.collectorWorksAfterFailedBackup(src, what) {
+				return
+			}
 		}
 		src.lr.discard(env)
 		os.RemoveAll(dir)
@@ -856,6 +863,39 @@ func (dr *diskRun) checkWriteFaults(measure *diskSim) {
 	env.Case("evaluations", n)
 	env.Case("distinct", n)
 	env.Case("nontrivial", 1)
+}
+
+// collectorWorksAfterFailedBackup (C06): a backup that failed, having held the only
+// handle of its snapshot, leaves the collector able to retire later snapshots.
+func (dr *diskRun) collectorWorksAfterFailedBackup(src *sourceClone, what string) bool {
+	env, s := dr.env, dr.env.S
+	var last uint32
+	s.Go("after", func() {
+		w := src.db.NewWriter()
+		s.ForceYield(SiteHarnessOp)
+		w.Put(dr.ne.newItem(900, "af"))
+		s1, _ := src.db.NewSnapshot()
+		if len(dr.keys) > 0 {
+			w.Delete(dr.ne.probeItem(dr.keys[0]))
+		}
+		s2, _ := src.db.NewSnapshot()
+		if s1 == nil || s2 == nil {
+			return
+		}
+		last = s2.VerifSn()
+		s2.Close()
+		s1.Close()
+		src.db.GC()
+	})
+	if v := s.Run(); v != VQuiescent {
+		env.Res.Inconclusive = v.String()
+		return false
+	}
+	if last != 0 && src.db.GetLastGCSn() != last {
+		env.Violate("C06", "collector-stuck-after-failed-backup", "%s: StoreToDisk failed holding the only handle of its snapshot; after two more snapshots were closed and GC() was forced GetLastGCSn()=%d, expected %d (%d snapshots listed)", what, src.db.GetLastGCSn(), last, len(src.db.GetSnapshots()))
+	}
+	env.Probe("failed_backup_then_collect")
+	return true
 }
 
 type sourceClone struct {
@@ -867,7 +907,7 @@ type sourceClone struct {
 // cloneSource builds a fresh instance holding the stored content by
 // restoring the fault-free backup (already validated by C05's oracle in the
 // backup scenario) and opening one more handle for StoreToDisk to consume.
-func (dr *diskRun) cloneSource() *sourceClone {
+func (dr *diskRun) cloneSource(single ...bool) *sourceClone {
 	lr := dr.load(dr.dir, "clone")
 	if lr.verdict != VQuiescent || lr.err != nil || lr.panicV != "" {
 		dr.env.Violate("C05", "load-failed", "cannot restore the fault-free backup: verdict=%v err=%v panic=%s", lr.verdict, lr.err, lr.panicV)
@@ -877,7 +917,9 @@ func (dr *diskRun) cloneSource() *sourceClone {
 		dr.env.Violate("C05", "restored-content-differs", "fault-free backup: %s", d)
 		return nil
 	}
-	if !lr.snap.Open() {
+	if len(single) > 0 && single[0] {
+		// StoreToDisk consumes the only handle of the snapshot (nobody else holds it)
+	} else if !lr.snap.Open() {
 		return nil
 	}
 	// StoreToDisk in delta mode needs writers (collection workers)
